@@ -73,7 +73,36 @@ static inline bool fm_okz(const FM *m, uint64_t n, i128 z){
   if (FM_SIZE(m) > 2) ok = ok && fm_term_ok(m, 2, z) && FM_IDX(m, 1) < FM_IDX(m, 2);
   if (FM_SIZE(m) > 3) ok = ok && fm_term_ok(m, 3, z) && FM_IDX(m, 2) < FM_IDX(m, 3);
   return ok; }
-#define FM_TERM(m, i) ((i) < FM_SIZE(m) ? ZM_mul_pure(FM_COEF(m, i), VAL(FM_IDX(m, i))) : (i128)0)
+/* the product symbol of models/zmodel.c as a side-effect-free term (identical to ZM_mul_pure: exact for operands
+ * 0, 1, -1, otherwise the uninterpreted symbol; bit-precise under ZM_PRECISE) */
+#ifdef ZM_PRECISE
+static inline i128 lmul(i128 a, i128 b){ return a * b; }
+#else
+i128 __CPROVER_uninterpreted_zmul(i128, i128);
+static inline i128 lmul(i128 a, i128 b){
+  if (a == 0 || b == 0) return 0;
+  if (a == 1) return b;  if (b == 1) return a;
+  if (a == -1) return -b; if (b == -1) return -a;
+  return __CPROVER_uninterpreted_zmul(a, b); }
+#endif
+#define FM_VAL(m, i) VAL(FM_IDX(m, i))
+#define FM_PROD(m, i) lmul(FM_COEF(m, i), FM_VAL(m, i))
+#define FM_TERM(m, i) ((i) < FM_SIZE(m) ? FM_PROD(m, i) : (i128)0)
+/* ---- lemma INSTANCES (schemas: lemmas/lincst_ring.smt2) */
+#define L_RANGE72(a, b) zin(lmul(a, b), ((i128)1) << 72)                        /* |a| < 2^41, |b| < 2^31 */
+#define L_RANGE116(a, b) zin(lmul(a, b), ((i128)1) << 116)                      /* |a| < 2^41, |b| < 2^75 */
+#define L_NEG(c, v) (lmul(-(c), v) == -lmul(c, v))
+#define L_DIST(p, q, v) (lmul((p) + (q), v) == lmul(p, v) + lmul(q, v))
+#define L_DISTM(p, q, v) (lmul((p) - (q), v) == lmul(p, v) - lmul(q, v))
+#define L_ASSOC(n, c, v) (lmul(lmul(n, c), v) == lmul(n, lmul(c, v)))
+#define L_DISTR(n, a, b) (lmul(n, (a) + (b)) == lmul(n, a) + lmul(n, b))
+/* P holds of every term of m */
+#define FORTERMS(m, P) ((FM_SIZE(m) <= 0 || P(m, 0)) && (FM_SIZE(m) <= 1 || P(m, 1)) && (FM_SIZE(m) <= 2 || P(m, 2)) && (FM_SIZE(m) <= 3 || P(m, 3)))
+#define P_RANGE(m, i) L_RANGE72(FM_COEF(m, i), FM_VAL(m, i))
+#define P_NEG(m, i) L_NEG(FM_COEF(m, i), FM_VAL(m, i))
+static inline bool fm_range_lemmas(const FM *m){ return FORTERMS(m, P_RANGE); }
+static inline bool fm_neg_lemmas(const FM *m){ return FORTERMS(m, P_RANGE) && FORTERMS(m, P_NEG); }
+#define NEG_LEMMAS(e) fm_neg_lemmas(MAPP(*(e)))
 static inline i128 fm_eval(const FM *m){ return FM_TERM(m, 0) + FM_TERM(m, 1) + FM_TERM(m, 2) + FM_TERM(m, 3); }
 /* coefficient of the variable with index x (0 when absent) */
 #define FM_GET1(m, i, x) (((i) < FM_SIZE(m) && FM_IDX(m, i) == (x)) ? FM_COEF(m, i) : (i128)0)
@@ -91,6 +120,7 @@ uint64_t __CPROVER_uninterpreted_map_emag(void *);
 static inline i128 map_e_abs(void *m){ i128 g = (i128)(__CPROVER_uninterpreted_map_emag(m) >> 4); return __CPROVER_uninterpreted_map_esign(m) != 0 ? -g : g; }
 #define MAP_E(m) (MAP_CONST(m) ? (i128)0 : map_e_abs((void *)(m)))
 #define MAP_OKN(m, n, z) 1
+#define NEG_LEMMAS(e) 1
 #endif
 
 /* ---- expressions and constraints */
